@@ -4,11 +4,13 @@ to /verif/seeded/<ID>/ (first) or /verif/seeded/<ID>/<n>/ (further ones), applie
 records what they reported in meta.json, and reverts /repo.  Never commits anything in /repo."""
 import json, os, shutil, subprocess, sys, time
 
-pid, n = sys.argv[1], sys.argv[2]
-checks = sys.argv[3:] or [pid]
+nocopy = "--nocopy" in sys.argv
+argv = [a for a in sys.argv if a != "--nocopy"]
+pid, n = argv[1], argv[2]
+checks = argv[3:] or [pid]
 src = "/tmp/wt/%s/MUTANT/%s" % (pid, n)
 dst = "/verif/seeded/%s" % pid if n == "1" else "/verif/seeded/%s/%s" % (pid, n)
-if os.path.isdir(src):
+if os.path.isdir(src) and not nocopy:
     os.makedirs(dst, exist_ok=True)
     for f in os.listdir(src):
         s, d = os.path.join(src, f), os.path.join(dst, f)
